@@ -20,12 +20,19 @@ pub fn step<T: Elem>(m: &mut Matrix<T>, op: &Value) -> StepOut<T> {
         match guarded(|| if own { -(m.clone()) } else { -&*m }) { Ok(x) => o.rm = Some(x), Err(_) => o.panic = true }
         return o;
     }
+    if gets(op, "op") == "neg_assign" {
+        // the live object itself is consumed; the result takes its place
+        let mut o = StepOut::none();
+        if guarded(|| { let old = std::mem::replace(m, Matrix::<T>::empty()); *m = -old; }).is_err() { o.panic = true }
+        return o;
+    }
     step_base(m, op)
 }
 /// every operation that needs no sign (also instantiated at the unsigned integer types)
 pub fn step_base<T: ElemBase>(m: &mut Matrix<T>, op: &Value) -> StepOut<T> {
     let name = gets(op, "op").to_string();
     let own = gets(op, "form") == "own";
+    let into = gets(op, "form") == "into";
     let mut o = StepOut::none();
     let r = guarded(|| {
         let mut o = StepOut::<T>::none();
@@ -45,10 +52,12 @@ pub fn step_base<T: ElemBase>(m: &mut Matrix<T>, op: &Value) -> StepOut<T> {
             "fill_tridiag" => m.fill_tridiag(arg_x::<T>(op, "lo"), arg_x::<T>(op, "di"), arg_x::<T>(op, "up")),
             "fill_row" => m.fill_row(getu(op, "i"), arg_x::<T>(op, "x")),
             "fill_col" => m.fill_col(getu(op, "j"), arg_x::<T>(op, "x")),
-            "add_assign" => { let b = arg_mat::<T>(op); if own { *m += b } else { *m += &b } }
-            "sub_assign" => { let b = arg_mat::<T>(op); if own { *m -= b } else { *m -= &b } }
-            "mul_assign" => *m *= arg_x::<T>(op, "s"),
-            "div_assign" => *m /= arg_x::<T>(op, "s"),
+            // form "into": the live object is moved into the by-value operator and replaced by the result
+            "add_assign" => { let b = arg_mat::<T>(op); if into { let old = std::mem::replace(m, Matrix::<T>::empty()); *m = old + b } else if own { *m += b } else { *m += &b } }
+            "sub_assign" => { let b = arg_mat::<T>(op); if into { let old = std::mem::replace(m, Matrix::<T>::empty()); *m = old - b } else if own { *m -= b } else { *m -= &b } }
+            "mul_assign" => if into { let old = std::mem::replace(m, Matrix::<T>::empty()); *m = old * arg_x::<T>(op, "s") } else { *m *= arg_x::<T>(op, "s") },
+            "div_assign" => if into { let old = std::mem::replace(m, Matrix::<T>::empty()); *m = old / arg_x::<T>(op, "s") } else { *m /= arg_x::<T>(op, "s") },
+            "matmul_assign" => { let b = arg_mat::<T>(op); let old = std::mem::replace(m, Matrix::<T>::empty()); *m = old * b }
             "add_scalar_assign" => *m += arg_x::<T>(op, "s"),
             "sub_scalar_assign" => *m -= arg_x::<T>(op, "s"),
             "get_row" => o.rv = Some(m.get_row(getu(op, "i"))),
@@ -100,7 +109,9 @@ fn step_f64(m: &Matrix<f64>, op: &Value) -> Option<StepOut<f64>> {
             if mx > 0.0 { for i in 0..m.rows() { for j in 0..m.cols() { s += (m[(i, j)].abs() / mx).powf(p); } } }
             let want = if mx > 0.0 { mx * s.powf(1.0 / p) } else { 0.0 };
             let n = (m.rows() * m.cols()).max(1) as f64;
-            o.units = Some(units((got - want).abs(), 16.0 * (n + 1.0) * f64::EPSILON * want.abs().max(f64::MIN_POSITIVE)));
+            // sum^(1/p): the rounding of the exponent 1/p is amplified by |ln sum| = p |ln want| (inherent in the definition)
+            let w = want.abs().max(f64::MIN_POSITIVE);
+            o.units = Some(units((got - want).abs(), (16.0 * (n + 1.0) + 2.0 * w.ln().abs()) * f64::EPSILON * w));
         }
         _ => return None,
     }
@@ -156,21 +167,24 @@ pub fn run_with<T: ElemBase>(case: &Value, out: &mut Out, step: fn(&mut Matrix<T
             continue;
         }
         let so = step(&mut m, op);
+        let consumed = matches!(name, "neg_assign" | "matmul_assign") || gets(op, "form") == "into";
+        if so.panic && consumed { m = mat_from::<T>(&pre_re, if T::CX { Some(&pre_im) } else { None }); }   // the moved object is gone: continue from the operand
         let post_re = jmat(&m, Part::Re); let post_im = jmat(&m, Part::Im);
-        let bilinear = matches!(name, "matmul" | "matvec" | "matmul_self");
+        let bilinear = matches!(name, "matmul" | "matvec" | "matmul_self" | "matmul_assign");
         if T::CX && bilinear {
             // one event carrying both parts: (A+iB)(C+iD)
-            let (c, d) = if name == "matmul_self" { (pre_re.clone(), pre_im.clone()) } else if name == "matmul" { (op["b"].clone(), op.get("bi").cloned().unwrap_or_else(|| json!({"r": op["b"]["r"], "c": op["b"]["c"], "d": vec![0i64; op["b"]["d"].as_array().unwrap().len()]}))) }
+            let (c, d) = if name == "matmul_self" { (pre_re.clone(), pre_im.clone()) } else if name == "matmul" || name == "matmul_assign" { (op["b"].clone(), op.get("bi").cloned().unwrap_or_else(|| json!({"r": op["b"]["r"], "c": op["b"]["c"], "d": vec![0i64; op["b"]["d"].as_array().unwrap().len()]}))) }
                          else { (as_col(&op["v"]), as_col(&op.get("vi").cloned().unwrap_or_else(|| Value::from(vec![0i64; op["v"].as_array().unwrap().len()])))) };
             let mut e = json!({"op": "matmul_cx", "src": name, "ty": "cx", "cid": cid, "k": k, "a": pre_re, "b": pre_im, "c": c, "d": d, "panic": so.panic, "post": post_re});
             e["pre"] = pre_re.clone();
             if let Some(rm) = &so.rm { e["rre"] = jmat(rm, Part::Re); e["rim"] = jmat(rm, Part::Im); }
             if let Some(rv) = &so.rv { e["rre"] = as_col(&jvec(rv, Part::Re)); e["rim"] = as_col(&jvec(rv, Part::Im)); }
+            if name == "matmul_assign" && !so.panic { e["rre"] = post_re.clone(); e["rim"] = post_im.clone(); }
             if so.panic { e["rre"] = json!({"r": 0, "c": 0, "d": []}); e["rim"] = e["rre"].clone(); }
             out.ev(e);
             // keep the imaginary history in step with a neutral event
             let mut e2 = json!({"op": "clone", "ty": "cx", "cid": cid, "k": k, "part": "im", "panic": false, "post": post_im, "rm": post_im});
-            e2["pre"] = pre_im.clone();
+            e2["pre"] = if name == "matmul_assign" { post_im.clone() } else { pre_im.clone() };
             e2["hist"] = json!("im"); out.ev(e2);
             continue;
         }
@@ -186,7 +200,7 @@ pub fn run_with<T: ElemBase>(case: &Value, out: &mut Out, step: fn(&mut Matrix<T
 
 pub fn exec(case: &Value, out: &mut Out) {
     match gets(case, "ty") { "rat" => run::<crate::rat::Rat>(case, out), "f64" => run::<f64>(case, out), "i64" => run::<i64>(case, out), "cx" => run::<ohsl::Cmplx>(case, out),
-        "u32" => run_with::<u32>(case, out, step_base::<u32>), "f64bits" => run_bits(case, out),
+        "u32" => run_with::<u32>(case, out, step_base::<u32>), "f64bits" => run_bits(case, out), "f64scale" => run_scale(case, out), "f64soak" => run_soak(case, out),
         t => { eprintln!("TOOL-ERROR unknown type {}", t); std::process::exit(2) } }
 }
 
@@ -238,6 +252,73 @@ pub fn run_bits(case: &Value, out: &mut Out) {
     } }
 }
 
+// ------------------------------------------------------------------ the whole exponent axis
+fn jmat_descaled(m: &Matrix<f64>, sc: f64) -> Value {
+    let mut d = Vec::new(); for i in 0..m.rows() { for j in 0..m.cols() { d.push(f64::to_ri(&(m[(i, j)] / sc)).0); } }
+    json!({"r": m.rows(), "c": m.cols(), "d": d})
+}
+/// Small-integer operands scaled by 2^k: every operation is exactly homogeneous, so the descaled result must be the
+/// integer result of the model (events in the ordinary format, pre = the integer operand).
+pub fn run_scale(case: &Value, out: &mut Out) {
+    let cid = geti(case, "cid"); let k = geti(case, "k") as i32; let sc = (2.0f64).powi(k);
+    let base = f64mat_from(&case["base"]); let (r, c) = (base.rows(), base.cols());
+    let mut a = base.clone(); for i in 0..r { for j in 0..c { a[(i, j)] = base[(i, j)] * sc; } }
+    let pre = jmat(&base, Part::Re);
+    let f2 = |x: f64| -> i64 { f64::to_ri(&(x / sc)).0 };
+    let mut kk = 0usize;
+    let mut emit = |out: &mut Out, mut e: Value, a: &Matrix<f64>, panic: bool| { e["ty"] = json!("f64"); e["cid"] = json!(cid); e["k"] = json!(kk); kk += 1; e["pre"] = pre.clone(); e["post"] = jmat_descaled(a, sc); e["panic"] = json!(panic); e["exp"] = json!(k); out.ev(e); };
+    for name in ["norm_1", "norm_inf", "norm_max"] {
+        let v = guarded(|| match name { "norm_1" => a.norm_1(), "norm_inf" => a.norm_inf(), _ => a.norm_max() });
+        emit(out, json!({"op": name, "ri": v.as_ref().map(|x| f2(*x)).unwrap_or(BAD)}), &a, v.is_err());
+    }
+    for p in [1i64, 2, 3] {
+        // the definition's own intermediates (p-th powers and their sum) must stay inside the normal range
+        if (k.unsigned_abs() as i64) * p > 900 { continue; }
+        for frob in [0i64, 1] { if frob == 1 && p != 2 { continue; }
+            let op = json!({"op": "norm_units", "p": p, "frob": frob});
+            let so = guarded(|| step_f64(&a, &op).unwrap());
+            let mut e = op.clone(); if let Ok(s) = &so { e["units"] = json!(s.units.unwrap()); } else { e["units"] = json!(SAT); }
+            emit(out, e, &a, so.is_err()); }
+    }
+    let x = f64vec_from(&case["x"]); let b = f64mat_from(&case["b"]);
+    let v = guarded(|| &a * &x); emit(out, json!({"op": "matvec", "form": "ref", "v": case["x"], "rv": v.as_ref().map(|v| Value::from(v.vec.iter().map(|t| f2(*t)).collect::<Vec<i64>>())).unwrap_or(json!([]))}), &a, v.is_err());
+    let m = guarded(|| &a * &b); emit(out, json!({"op": "matmul", "form": "ref", "b": case["b"], "rm": m.as_ref().map(|m| jmat_descaled(m, sc)).unwrap_or(json!({"r": 0, "c": 0, "d": []}))}), &a, m.is_err());
+    // both factors scaled in opposite directions: the product is the integer product itself
+    let mut bs = b.clone(); let isc = (2.0f64).powi(-k); for i in 0..bs.rows() { for j in 0..bs.cols() { bs[(i, j)] = b[(i, j)] * isc; } }
+    let m = guarded(|| a.clone() * bs.clone()); emit(out, json!({"op": "matmul", "form": "own", "b": case["b"], "rm": m.as_ref().map(|m| jmat(m, Part::Re)).unwrap_or(json!({"r": 0, "c": 0, "d": []}))}), &a, m.is_err());
+    let m = guarded(|| &a + &a); emit(out, json!({"op": "add_self", "rm": m.as_ref().map(|m| jmat_descaled(m, sc)).unwrap_or(json!({"r": 0, "c": 0, "d": []}))}), &a, m.is_err());
+    let m = guarded(|| -&a); emit(out, json!({"op": "neg", "form": "ref", "rm": m.as_ref().map(|m| jmat_descaled(m, sc)).unwrap_or(json!({"r": 0, "c": 0, "d": []}))}), &a, m.is_err());
+    let m = guarded(|| a.transpose()); emit(out, json!({"op": "transpose", "rm": m.as_ref().map(|m| jmat_descaled(m, sc)).unwrap_or(json!({"r": 0, "c": 0, "d": []}))}), &a, m.is_err());
+    let m = guarded(|| &a * 3.0); emit(out, json!({"op": "mul_scalar", "form": "ref", "s": 3, "rm": m.as_ref().map(|m| jmat_descaled(m, sc)).unwrap_or(json!({"r": 0, "c": 0, "d": []}))}), &a, m.is_err());
+    let m = guarded(|| &a / sc); emit(out, json!({"op": "clone", "rm": m.as_ref().map(|m| jmat(m, Part::Re)).unwrap_or(json!({"r": 0, "c": 0, "d": []}))}), &a, m.is_err());   // A*2^k / 2^k = A
+}
+
+// ------------------------------------------------------------------ call-count independence
+/// n calls of each operation on fixed inexact operands inside one process and thread; every call must return what the first did
+pub fn run_soak(case: &Value, out: &mut Out) {
+    let cid = geti(case, "cid"); let n = getu(case, "n");
+    let mut a = Matrix::<f64>::new(3, 2, 0.0); let mut b = Matrix::<f64>::new(2, 3, 0.0);
+    for i in 0..3 { for j in 0..2 { a[(i, j)] = 0.1 * (1 + 2 * i + j) as f64 - 0.35; b[(j, i)] = 1.0 / (3 + i + 4 * j) as f64; } }
+    let x = Vector::<f64>::create(vec![0.3, -0.7]);
+    let names = ["transpose", "matmul", "matmul_own", "matvec", "norm_1", "norm_inf", "norm_max", "norm_frob", "norm_p3", "add", "sub", "neg", "mul_scalar", "div_scalar", "clone", "get_row", "get_col", "edit_cycle"];
+    for (k, name) in names.iter().enumerate() {
+        let call = |a: &Matrix<f64>| -> Vec<u64> {
+            let mb = |m: Matrix<f64>| -> Vec<u64> { let mut v = vec![m.rows() as u64, m.cols() as u64]; for i in 0..m.rows() { for j in 0..m.cols() { v.push(m[(i, j)].to_bits()); } } v };
+            match *name {
+                "transpose" => mb(a.transpose()), "matmul" => mb(a * &b), "matmul_own" => mb(a.clone() * b.clone()), "matvec" => (a * &x).vec.iter().map(|t| t.to_bits()).collect(),
+                "norm_1" => vec![a.norm_1().to_bits()], "norm_inf" => vec![a.norm_inf().to_bits()], "norm_max" => vec![a.norm_max().to_bits()], "norm_frob" => vec![a.norm_frob().to_bits()], "norm_p3" => vec![a.norm_p(3.0).to_bits()],
+                "add" => mb(a + a), "sub" => mb(a.clone() - b.transpose()), "neg" => mb(-a), "mul_scalar" => mb(a * 0.7), "div_scalar" => mb(a / 0.7), "clone" => mb(a.clone()),
+                "get_row" => a.get_row(2).vec.iter().map(|t| t.to_bits()).collect(), "get_col" => a.get_col(1).vec.iter().map(|t| t.to_bits()).collect(),
+                _ => { let mut m = a.clone(); m.transpose_in_place(); m.resize(4, 4); m.swap_rows(0, 1); m.delete_row(3); m.fill_diag(0.3); m *= 1.7; m += 0.1; mb(m) }
+            } };
+        let first = guarded(|| call(&a));
+        let (mut panics, mut diffs, mut firstbad) = (if first.is_err() { 1i64 } else { 0 }, 0i64, 0i64);
+        let first = first.unwrap_or_default();
+        for i in 1..n { match guarded(|| call(&a)) { Ok(v) => if v != first { diffs += 1; if firstbad == 0 { firstbad = i as i64; } }, Err(_) => { panics += 1; if firstbad == 0 { firstbad = i as i64; } } } }
+        out.ev(json!({"op": "soak", "name": name, "ty": "f64", "cid": cid, "k": k, "n": n, "panics": panics.min(SAT), "diffs": diffs.min(SAT), "first": firstbad}));
+    }
+}
+
 // ------------------------------------------------------------------ case generation
 const TYS: [&str; 4] = ["rat", "f64", "cx", "i64"];
 
@@ -267,10 +348,10 @@ fn rand_op(rng: &mut StdRng, r: usize, c: usize, cx: bool, f64ty: bool, doubling
             17 => { o = json!({"op": "fill_row", "i": idx(rng, r, bad), "x": small(rng)}); if cx { o["xi"] = json!(small(rng)); } }
             18 => { o = json!({"op": "fill_col", "j": idx(rng, c, bad), "x": small(rng)}); if cx { o["xi"] = json!(small(rng)); } }
             19 | 20 => { let (br, bc) = if bad && rng.gen_bool(0.1) { (r + 1, c) } else { (r, c) };
-                o = json!({"op": if pick == 19 { "add_assign" } else { "sub_assign" }, "form": if rng.gen_bool(0.5) { "own" } else { "ref" }, "b": rand_mat_json(rng, br, bc, -9, 9)});
+                o = json!({"op": if pick == 19 { "add_assign" } else { "sub_assign" }, "form": (["own", "ref", "into"][rng.gen_range(0..3)]), "b": rand_mat_json(rng, br, bc, -9, 9)});
                 if cx { o["bi"] = rand_mat_json(rng, br, bc, -9, 9); } }
-            21 => { let s = [-1i64, 0, 1, 2, -2][rng.gen_range(0..5)]; if s.abs() == 2 { if *doublings >= 8 { continue; } *doublings += 1; } o = json!({"op": "mul_assign", "s": s}); }
-            22 => { o = json!({"op": "div_assign", "s": if rng.gen_bool(0.5) { 1 } else { -1 }}); }
+            21 => { let s = [-1i64, 0, 1, 2, -2][rng.gen_range(0..5)]; if s.abs() == 2 { if *doublings >= 8 { continue; } *doublings += 1; } o = json!({"op": "mul_assign", "s": s, "form": if rng.gen_bool(0.3) { "into" } else { "ref" }}); }
+            22 => { o = json!({"op": "div_assign", "s": if rng.gen_bool(0.5) { 1 } else { -1 }, "form": if rng.gen_bool(0.3) { "into" } else { "ref" }}); }
             23 => { o = json!({"op": "add_scalar_assign", "s": small(rng)}); if cx { o["si"] = json!(small(rng)); } }
             24 => { o = json!({"op": "sub_scalar_assign", "s": small(rng)}); if cx { o["si"] = json!(small(rng)); } }
             25 => { o = json!({"op": "get_row", "i": idx(rng, r, bad)}); }
@@ -291,6 +372,12 @@ fn rand_op(rng: &mut StdRng, r: usize, c: usize, cx: bool, f64ty: bool, doubling
             38 | 39 => { let k = if bad && rng.gen_bool(0.1) { c + 1 } else { c };
                 o = json!({"op": "matvec", "form": (["own", "ref", "method"][rng.gen_range(0..3)]), "v": rand_vec_json(rng, k, -3, 3)});
                 if cx { o["vi"] = rand_vec_json(rng, k, -3, 3); } }
+            40 if rng.gen_bool(0.35) => {
+                // the live object consumed by a by-value operator (negation, product), the result taking its place
+                if rng.gen_bool(0.5) { o = json!({"op": "neg_assign"}); }
+                else { if *doublings + 3 > 8 { continue; } *doublings += 3; let k = if bad && rng.gen_bool(0.1) { c + 1 } else { c }; let c2 = rng.gen_range(0..=8);
+                    o = json!({"op": "matmul_assign", "b": rand_mat_json(rng, k, c2, -1, 1)}); if cx { o["bi"] = rand_mat_json(rng, k, c2, 0, 0); } if k == c { nc = c2; } }
+            }
             40 => { o = if rng.gen_bool(0.4) { json!({"op": "eye", "n": rng.gen_range(0..=8)}) } else { json!({"op": (["add_self", "sub_self", "matmul_self"][rng.gen_range(0..3)])}) }; }
             41 => { o = json!({"op": "new", "nr": rng.gen_range(0..=8), "nc": rng.gen_range(0..=8), "x": small(rng)}); if cx { o["xi"] = json!(small(rng)); } }
             42 => { if !f64ty { continue; } o = json!({"op": "norm_1"}); }
@@ -429,16 +516,17 @@ pub fn gen(tier: &str, seed: u64, out: &mut Out) {
         let (mut lo, mut hi, mut cr, mut cc) = (5i64, 14i64, r, c);
         let mut ops: Vec<Value> = vec![];
         let fm = |rng: &mut StdRng| if rng.gen_bool(0.5) { "own" } else { "ref" };
+        let fm3 = |rng: &mut StdRng| ["own", "ref", "into"][rng.gen_range(0..3)];
         let matj = |rng: &mut StdRng, r: usize, c: usize, a: i64, b: i64| rand_mat_json(rng, r, c, a, b);
         for step in 0..(if quick { 24 } else { 60 }) {
             let pick = if step < 2 { 0 } else { rng.gen_range(0..24) };
             match pick {
                 0 => { let s = rng.gen_range(0..=lo); ops.push(json!({"op": "sub_scalar_assign", "s": s})); lo -= s; hi -= s; }
                 1 => { let s = rng.gen_range(0..=9); ops.push(json!({"op": "add_scalar_assign", "s": s})); lo += s; hi += s; }
-                2 => { let s = rng.gen_range(0..=3); if hi * s > 50_000 { continue; } ops.push(json!({"op": "mul_assign", "s": s})); lo *= s; hi *= s; }
+                2 => { let s = rng.gen_range(0..=3); if hi * s > 50_000 { continue; } ops.push(json!({"op": "mul_assign", "s": s, "form": if rng.gen_bool(0.4) { "into" } else { "ref" }})); lo *= s; hi *= s; }
                 3 => { ops.push(json!({"op": "div_assign", "s": 1})); }
-                4 => { let b = matj(&mut rng, cr, cc, 0, lo.min(9)); ops.push(json!({"op": "sub_assign", "form": fm(&mut rng), "b": b})); lo -= lo.min(9); }
-                5 => { let b = matj(&mut rng, cr, cc, 0, 9); ops.push(json!({"op": "add_assign", "form": fm(&mut rng), "b": b})); hi += 9; }
+                4 => { let b = matj(&mut rng, cr, cc, 0, lo.min(9)); ops.push(json!({"op": "sub_assign", "form": fm3(&mut rng), "b": b})); lo -= lo.min(9); }
+                5 => { let b = matj(&mut rng, cr, cc, 0, 9); ops.push(json!({"op": "add_assign", "form": fm3(&mut rng), "b": b})); hi += 9; }
                 6 => { let b = matj(&mut rng, cr, cc, 0, lo.min(9)); ops.push(json!({"op": "sub", "form": fm(&mut rng), "b": b})); }
                 7 => { let b = matj(&mut rng, cr, cc, 0, 9); ops.push(json!({"op": "add", "form": fm(&mut rng), "b": b})); }
                 8 => { let s = rng.gen_range(0..=3); ops.push(json!({"op": "mul_scalar", "form": fm(&mut rng), "s": s})); }
@@ -467,6 +555,16 @@ pub fn gen(tier: &str, seed: u64, out: &mut Out) {
         let (r, c) = if h < 25 { (h % 5, h / 5) } else { (rng.gen_range(1..=5usize), rng.gen_range(1..=5usize)) };
         push(out, json!({"ty": "f64bits", "r": r, "c": c, "class": h % 6, "sk": h % 13, "vseed": rng.gen_range(1..1_000_000i64), "ops": []}));
     }
+    // (j) the whole exponent axis: small-integer operands scaled by 2^k, every k (quick: a grid plus the places where
+    //     squares and products of two entries leave the range)
+    let mut ks: Vec<i64> = if quick { (-1000..=1000).step_by(8).collect() } else { (-1000..=1000).collect() };
+    if quick { for t in [255i64, 256, 486, 487, 500, 511, 512, 513, 537, 538, 600, 767, 768, 900, 999] { ks.push(t); ks.push(-t); } }
+    for k in ks {
+        let (r, c) = (rng.gen_range(1..=4usize), rng.gen_range(1..=4usize)); let c2 = rng.gen_range(1..=3usize);
+        push(out, json!({"ty": "f64scale", "k": k, "base": rand_mat_json(&mut rng, r, c, -9, 9), "x": rand_vec_json(&mut rng, c, -5, 5), "b": rand_mat_json(&mut rng, c, c2, -5, 5), "ops": []}));
+    }
+    // (k) call-count independence (counters, sampled checks, wrap-around of generation marks): 2^16+64 / 2^20+64 calls
+    push(out, json!({"ty": "f64soak", "n": if quick { 65_600 } else { 1_048_640 }, "ops": []}));
     // (d) exact scalar division on multiples
     for _ in 0..(if quick { 20 } else { 200 }) {
         let ty = TYS[rng.gen_range(0..4)]; let s = [2i64, -2, 3, -3, 5, 7][rng.gen_range(0..6)];
